@@ -76,7 +76,7 @@ def cases(tier, seed, shard, nshards):
         idx += 1
         yield {"k": "x", "d1": (idx + shard) % NDOC, "d2": (idx * 5 + shard + seed) % NDOC, "x": "".join(seq)}
     r = rng_for(seed, shard, "c04")
-    n = tier_pick(tier, 30000, 600000) // nshards
+    n = tier_pick(tier, 60000, 2400000) // nshards
     for i in range(n):
         mode = i % 4
         if mode == 0:
